@@ -180,3 +180,32 @@ def class_behaviour(rng, alg, fam, pattern):
 
 
 CLASS_PATTERNS = ["equal", "minlane", "flushk", "stream1", "reuse"]
+
+
+def job_behaviour(rng, alg, fam):
+    """the lane scheduler driven directly: every submit uses a fresh job object; lengths in whole blocks"""
+    L = max(1, lanes(alg, fam))
+    n = rng.choice([1, 2, L, L + 1, L + 3, min(2 * L, 40)])
+    n = max(1, min(n, 40))
+    cmds = ["jmgr %s %s %d" % (alg, fam, n)]
+    b = rng.randrange(2, 1 << 20)
+    for j in range(n):
+        nblk = rng.choice([1, 1, 2, 3, 5, 17]) if rng.random() < 0.8 else rng.randrange(1, 40)
+        if rng.random() < 0.2:
+            nblk = 2            # ties
+        cmds.append("jsub %d %d %d %d %s" % (j, b + j, rng.randrange(1 << 18), nblk, pick_place(rng)))
+        if rng.random() < 0.15:
+            cmds.append("jflush")
+    cmds.append("jdrain %d" % (L + 34))
+    cmds.append("jend")
+    return cmds
+
+
+def job_jobs(rng, per_fam):
+    jobs = []
+    for alg in FAMS:
+        for fam in FAMS[alg]:
+            if fam == "base":
+                continue
+            jobs.append({"name": "job-%s-%s" % (alg, fam), "behaviours": [job_behaviour(rng, alg, fam) for _ in range(per_fam)], "driver": "job"})
+    return jobs
